@@ -61,6 +61,8 @@ InplaceOK(r) ==
         P == IF r.op = "rotate-right" THEN MatMul(M0, S) ELSE MatMul(S, M0)
     IN  /\ (r.step > 1 /\ prog = <<r.prog, r.t, r.n>> => r.m0 = cur)       \* a chained step starts where the last one ended
         /\ PolyMat(t, r.m1, P, n, KT)
+        \* translation() returns the translation row as stored, whatever the rest of the matrix holds
+        /\ (Has(r, "tr") => r.tr = [j \in 1..(n - 1) |-> r.m1[(n - 1) * n + j]])
 
 Row(A, i) == <<A[i][1], A[i][2], A[i][3]>>
 MaxAbsOf3(A) == D!DMax(D!DMax(D!DSumAbs(Row(A, 1)), D!DSumAbs(Row(A, 2))), D!DSumAbs(Row(A, 3)))
